@@ -205,6 +205,11 @@ func enumerateClearsignFaults(b SignBase, thorough bool, yield func(ClearsignCas
 			"armor:lowercase-header":      []byte(strings.Replace(s, "-----BEGIN PGP SIGNED MESSAGE-----", "-----BEGIN PGP signed message-----", 1)),
 			"armor:hash-header-changed":   []byte(strings.Replace(s, "Hash: SHA256", "Hash: SHA512", 1)),
 			"armor:hash-header-removed":   []byte(strings.Replace(s, "Hash: SHA256\n", "", 1)),
+			// the armor line made unparsable for the OpenPGP decoder but not for a deb822 reader, signature dropped:
+			// nothing here is signed any more, so nothing of it may be accepted under the armor header
+			"armor:header-junk+sig-removed":     []byte(strings.Replace(s[:sigStart], "-----BEGIN PGP SIGNED MESSAGE-----\n", "-----BEGIN PGP SIGNED MESSAGE-----: x\n", 1)),
+			"armor:header-junk+sig-commented":   []byte(strings.Replace(s[:sigStart], "-----BEGIN PGP SIGNED MESSAGE-----\n", "-----BEGIN PGP SIGNED MESSAGE-----: x\n", 1) + "#" + strings.Replace(s[sigStart:], "\n", "\n#", -1) + "\n"),
+			"armor:header-junk+sig-as-field":    []byte(strings.Replace(s[:sigStart], "-----BEGIN PGP SIGNED MESSAGE-----\n", "-----BEGIN PGP SIGNED MESSAGE-----: x\n", 1) + "\nSig: x\n " + strings.Replace(strings.TrimRight(s[sigStart:], "\n"), "\n", "\n ", -1) + "\n"),
 		}
 		// signature swapped for one by another key / over another text
 		if otherSigned, err := signDoc(b.Doc.Text, other); err == nil {
